@@ -27,7 +27,7 @@ ASSUMPTIONS = [
 BOUND = {'quick': 'subsets of size <=3 (232) x 15 endings', 'thorough': 'all 2048 subsets x 15 endings'}
 CHUNK = 8
 
-OPTS = ['gc1', 'gc3', 'G', 'cov', 'prof', 'buf', 'warn', 'D', 'gcat', 'list', 'path2']
+OPTS = ['gc1', 'gc3', 'G', 'cov', 'prof', 'buf', 'warn', 'D', 'gcat', 'list', 'path2', 'profbr']
 ENDS = ['normal', 'fail', 'hookS', 'hookD', 'kbint', 'kbint_setup', 'x', 'sysexit_layer',
         'warnfilter', 'leave_replaced', 'settrace', 'layer_swaps', 'layer_unpaths',
         'garbage_small', 'garbage_big']
@@ -37,6 +37,8 @@ def cases(tier, seed):
     S = 3 if tier == 'quick' else len(OPTS)
     for k in range(S + 1):
         for sub in itertools.combinations(OPTS, k):
+            if 'prof' in sub and 'profbr' in sub:
+                continue
             for e in worlds.rot(ENDS, seed):
                 if e == 'leave_replaced' and 'buf' not in sub:
                     # without --buffer the runner never touches the streams
@@ -114,6 +116,11 @@ def run_case(case):
             argv += ['--coverage', os.path.join(WD, 'cov')]
         elif o == 'prof':
             argv += ['--profile', 'cProfile', '--profile-directory', WD]
+        elif o == 'profbr':
+            # a profile directory whose name is a glob pattern that does not
+            # match itself: the profiler's final step fails
+            os.makedirs(os.path.join(WD, 'prof[1]'), exist_ok=True)
+            argv += ['--profile', 'cProfile', '--profile-directory', os.path.join(WD, 'prof[1]')]
         elif o == 'buf':
             argv += ['--buffer']
         elif o == 'warn':
@@ -156,5 +163,5 @@ WHO = {'gc_threshold': {'gc1', 'gc3'}, 'gc_debug': {'G', 'gcat'},
        'thr_trace': {'cov'}, 'thr_profile': {'prof'},
        'sys_settrace_func': {'cov'}, 'warn_filters': {'warn'},
        'tb_format_exception': set(), 'tb_print_exception': set(),
-       'other_thread_trace': {'cov', 'D'}, 'other_thread_profile': {'prof'},
-       'monitoring_tools': {'prof', 'cov'}}
+       'other_thread_trace': {'cov', 'D'}, 'other_thread_profile': {'prof', 'profbr'},
+       'monitoring_tools': {'prof', 'cov', 'profbr'}}
